@@ -9,16 +9,16 @@
    or any of the non-returning ends).  A schedule is ANY list of actions (checker step / main step / sleep dt in the
    join); `run k (init k) sched` is the state after it.  All theorems quantify over every k and every schedule.
 
-   KNOWN FINDING (found by the harness, then put into the model): when the checker thread dies of an unhandled exception
-   (tag_name missing / null / not a string / not a version, a body that is not a JSON object, a non-requests exception)
-   it writes its traceback to stderr; if the main thread shuts the interpreter down at that moment -- it does not wait
-   for the thread when the sub-command did not return normally, or when the join timed out -- CPython aborts ("Fatal
-   Python error: _enter_buffered_busy ... at interpreter shutdown, possibly due to daemon threads"), exit status 134
-   instead of the command's.  Hence C20_full_statement is REFUTED (C20_refuted) and the exit-code theorem is proved
-   (a) outside the region `in_finding_region` (C20_exit_code_partial), (b) everywhere as "the command's status or this
-   abort" (C20_exit_code_or_abort).  Standard output, delay bound and deadlock freedom hold at full strength.
+   HISTORY: the pinned code (`except requests.exceptions.RequestException`) let the checker thread die of an unhandled
+   exception on a tag_name that is missing / null / not a string / not a version, a body that is not a JSON object, or a
+   non-requests exception; the dying thread held stderr while writing its traceback, and a main thread shutting the
+   interpreter down at that moment (no join after a non-returning sub-command; join timed out) was aborted by CPython:
+   exit status 134 instead of the command's (found by the C20 harness; then `C20_full_statement` was refuted in Coq).
+   Repaired by the commit "fix: the update check swallows every exception of the checker thread" (`except Exception`):
+   the thread now always reaches the handler, C20_full_statement below is PROVED, and the obligation
+   C20_checker_swallows_every_exception on the regenerated constant breaks if the clause is narrowed again.
 
-   Not covered by the proof (sampled by the harness): the real thread scheduler, other effects of interpreter shutdown
+   Not covered by the proof (sampled by the harness): the real thread scheduler, interpreter shutdown
    with a live daemon thread, wall-clock slack; click's rule "result callback only after a normal return" and packaging's parser
    are transcribed / enter as data.  The code puts NO condition on the installed version being a final release: a
    notice is shown to a dev/pre-release installation as well (the theorem states exactly what the code requires). *)
@@ -32,6 +32,11 @@ Theorem C20_join_timeout_is_one_second : join_timeout = 1 /\ join_timeout_debug 
 Proof. split; reflexivity. Qed.
 Theorem C20_checker_is_daemon : updater_daemon = true.
 Proof. reflexivity. Qed.
+(* the except clause of _get_latest_version names `Exception` (the model sends every failure of the checker to the
+   handler because of this) *)
+Theorem C20_checker_swallows_every_exception :
+  update_caught_exception = [69; 120; 99; 101; 112; 116; 105; 111; 110].       (* "Exception" *)
+Proof. reflexivity. Qed.
 Theorem C20_comparison_is_strict : update_compare_strict = true.
 Proof. reflexivity. Qed.
 Theorem C20_same_notice_in_both_groups : update_notice = update_notice_debug.
@@ -42,61 +47,14 @@ Theorem C20_real_config : forall debug cur srv cmd,
   k_cmd (real_config debug cur srv cmd) = cmd.
 Proof. intros [|] cur srv cmd; repeat split; reflexivity. Qed.
 
-(* ---- exit code.  Full strength -- for every server, every schedule, a run that ends, ends with the command's own status
-        (hypothesis: the installed version string is a PEP 440 version, see C20_needs_current) -- is FALSE: *)
+(* ---- exit code, at full strength: for every configuration (server, installed version, command) and every schedule, a
+        run that ends, ends with the command's own status (hypothesis: the installed version string is a PEP 440
+        version, see C20_needs_current) *)
 Definition C20_full_statement : Prop := forall k sched c,
   k_current k <> None -> s_main (run k (init k) sched) = MExit c -> c = cmd_exit k.
-
-Definition rel (r : list N) : version := mkVer 0 r None None None None.
-Definition v120 := rel [1; 2; 0].
-Definition fail_cmd := mkCommand [Work 200; Emit 7] (Raises 11).
-(* witness: `verify` of an altered tree (exit 11) while the server answers {"tag_name": "nightly"}: the checker is
-   writing its traceback when the main thread exits -> status 134 *)
-Definition refuting_config := real_config true (Some v120) (mkServer (Some 0) (RResponse true (Some (JDict (TagText None))))) fail_cmd.
-Definition refuting_schedule := [AChk; AChk; AChk; AChk; AChk; AMain; AMain; AMain].
-Theorem C20_refuted : ~ C20_full_statement.
-Proof.
-  intros H. specialize (H refuting_config refuting_schedule 134).
-  assert (E : (134 : N) = cmd_exit refuting_config); [apply H; [discriminate | vm_compute; reflexivity] | vm_compute in E; discriminate].
-Qed.
-Print Assumptions C20_refuted.
-
-(* what IS proved, for all servers and schedules.  (a) outside the region of the finding (Coq-defined boolean, the one
-   the harness evaluates): the command's status *)
-Theorem C20_exit_code_partial : forall k sched c,
-  k_current k <> None -> in_finding_region k = false ->
-  s_main (run k (init k) sched) = MExit c -> c = cmd_exit k.
-Proof. exact run_exit_code_partial. Qed.
-Print Assumptions C20_exit_code_partial.
-(* (b) everywhere: the command's status, or the abort -- which needs a configuration of the region AND a main thread
-   that did not see the checker end (command not returning normally, or join ended by its timeout) *)
-Theorem C20_exit_code_or_abort : forall k sched c,
-  k_current k <> None -> s_main (run k (init k) sched) = MExit c ->
-  c = cmd_exit k \/
-  (c = abort_status /\ In EFatalShutdown (s_err (run k (init k) sched)) /\ in_finding_region k = true /\
-   (c_end (k_cmd k) = Returns -> s_delay (run k (init k) sched) = k_timeout k)).
-Proof. exact run_exit_code_or_abort. Qed.
-Print Assumptions C20_exit_code_or_abort.
-Theorem C20_exit_code_without_fatal_error : forall k sched c,
-  k_current k <> None -> ~ In EFatalShutdown (s_err (run k (init k) sched)) ->
-  s_main (run k (init k) sched) = MExit c -> c = cmd_exit k.
-Proof. exact run_exit_code_no_fatal. Qed.
-(* the region: exactly the answers on which the checker dies; a refused connection, an HTTP error, a body that is
-   not JSON, or any parsable version are outside *)
-Theorem C20_region : forall k, in_finding_region k = true <->
-  k_daemon k = true /\ (exists t, s_after (k_server k) = Some t) /\
-  (s_reply (k_server k) = ROtherExc \/ s_reply (k_server k) = RResponse true (Some JNonDict) \/
-   exists t, s_reply (k_server k) = RResponse true (Some (JDict t)) /\ forall v, t <> TagText (Some v)).
-Proof.
-  intros k; unfold in_finding_region, reply_kills.
-  destruct (k_daemon k), (s_after (k_server k)) as [t |]; simpl; split;
-    try (intros H; discriminate H); try (intros [H _]; discriminate H); try (intros [_ [[t' H] _]]; discriminate H).
-  - intros H. split; auto. split; eauto.
-    destruct (s_reply (k_server k)) as [| | [|] [[| [| | | [v |]]] |]]; try discriminate; auto;
-      right; right; eexists; split; eauto; intros v' E; discriminate E.
-  - intros [_ [_ [H | [H | [t' [H N]]]]]]; rewrite H; auto.
-    destruct t' as [| | | [v |]]; auto. exfalso; eapply N; eauto.
-Qed.
+Theorem C20_exit_code_is_the_commands : C20_full_statement.
+Proof. exact run_exit_code. Qed.
+Print Assumptions C20_exit_code_is_the_commands.
 
 (* ---- standard output: while the command runs, a prefix of the command's output; afterwards the command's output,
         followed by at most one notice *)
@@ -155,7 +113,7 @@ Theorem C20_every_maximal_run_ends_in_exit : forall k l s,
   k_daemon k = true -> trace k (init k) l = Some s -> stuck k s ->
   exists c, s_main s = MExit c /\
     (k_current k <> None ->
-       (c = cmd_exit k \/ c = abort_status /\ in_finding_region k = true) /\
+       c = cmd_exit k /\
        (s_out s = map OChunk (cmd_chunks k) \/ s_out s = map OChunk (cmd_chunks k) ++ [ONotice]) /\
        s_delay s <= k_timeout k).
 Proof. exact maximal_run_ends_in_exit. Qed.
@@ -169,15 +127,18 @@ Theorem C20_real_no_deadlock : forall debug cur srv cmd sched,
 Proof. intros debug cur srv cmd sched k; apply run_no_deadlock; destruct debug; reflexivity. Qed.
 Print Assumptions C20_real_no_deadlock.
 
-(* ---- an exception in the checker thread never reaches the main thread: a checker step changes nothing the main
-        thread is or shows; latest_version is never anything but None or a Version; the main thread never raises *)
+(* ---- an exception in the checker thread never reaches the main thread (nor anybody else): a checker step changes
+        nothing the main thread is or shows and writes nothing to stderr; whatever happens to the checker after
+        requests.get came back it goes on until run() returns (it cannot die); latest_version is never anything but None
+        or a Version, and None after any failure; nothing at all appears on stderr, so the main thread never raises *)
 Theorem C20_checker_step_frame : forall k s s', step k s AChk = Some s' ->
-  s_main s' = s_main s /\ s_out s' = s_out s /\ s_now s' = s_now s /\ s_delay s' = s_delay s.
+  s_main s' = s_main s /\ s_out s' = s_out s /\ s_now s' = s_now s /\ s_delay s' = s_delay s /\ s_err s' = s_err s.
 Proof. exact step_checker_frame. Qed.
-Theorem C20_checker_failure_is_isolated : forall k sched, k_current k <> None ->
+Theorem C20_checker_always_finishes : forall k s, s_chk s <> CDone -> s_chk s <> CGet -> exists s', step_chk k s = Some s'.
+Proof. exact checker_always_finishes. Qed.
+Theorem C20_checker_failure_is_isolated : forall k sched,
   let s := run k (init k) sched in
-  ~ In EMainTraceback (s_err s) /\ (forall b, s_latest s <> PStr b) /\
-  (s_chk s = CDying \/ s_chk s = CDead -> s_latest s = PNone).
+  (k_current k <> None -> s_err s = []) /\ (forall b, s_latest s <> PStr b) /\ (s_chk s = CHandler -> s_latest s = PNone).
 Proof. exact run_isolated. Qed.
 Print Assumptions C20_checker_failure_is_isolated.
 
@@ -186,8 +147,7 @@ Print Assumptions C20_checker_failure_is_isolated.
 Theorem C20_same_as_reference_run : forall k1 k2 l1 l2 c1 c2,
   k_cmd k1 = k_cmd k2 -> k_current k1 <> None -> k_current k2 <> None ->
   s_main (run k1 (init k1) l1) = MExit c1 -> s_main (run k2 (init k2) l2) = MExit c2 ->
-  chunks_of (s_out (run k1 (init k1) l1)) = chunks_of (s_out (run k2 (init k2) l2)) /\
-  (~ In EFatalShutdown (s_err (run k1 (init k1) l1)) -> ~ In EFatalShutdown (s_err (run k2 (init k2) l2)) -> c1 = c2).
+  c1 = c2 /\ chunks_of (s_out (run k1 (init k1) l1)) = chunks_of (s_out (run k2 (init k2) l2)).
 Proof. exact same_as_reference. Qed.
 Print Assumptions C20_same_as_reference_run.
 
@@ -197,8 +157,7 @@ Theorem C20_prediction_is_a_run : forall k o, predict k = Some o ->
                 o = mkObs c (chunks_of (s_out s)) (has_notice (s_out s)) (s_delay s) (s_err s).
 Proof. exact predict_is_run. Qed.
 Theorem C20_prediction_sound : forall k o, predict k = Some o -> k_current k <> None ->
-  o_exit o = cmd_exit k /\ o_chunks o = cmd_chunks k /\ o_delay o <= k_timeout k /\
-  ~ In EMainTraceback (o_err o) /\ ~ In EFatalShutdown (o_err o) /\
+  o_exit o = cmd_exit k /\ o_chunks o = cmd_chunks k /\ o_delay o <= k_timeout k /\ o_err o = [] /\
   (o_notice o = true ->
      exists v t c, k_server k = mkServer (Some t) (RResponse true (Some (JDict (TagText (Some v))))) /\
                    t <= cmd_time k + o_delay o /\ k_current k = Some c /\ ver_cmp c v = Lt /\
@@ -219,10 +178,13 @@ Print Assumptions C20_version_cmp_antisymmetric.
 
 (* ------------------------------------------------------------------------------------------ non-vacuity *)
 
+Definition rel (r : list N) : version := mkVer 0 r None None None None.
+Definition v120 := rel [1; 2; 0].
 Definition v13 := rel [1; 3].
 Definition v13rc1 := mkVer 0 [1; 3] (Some (PreRC, 1)) None None None.
 Definition v13dev := mkVer 0 [1; 3] None None (Some 2) None.
 Definition ok_cmd := mkCommand [Work 200; Emit 7; Work 100; Emit 8] Returns.
+Definition fail_cmd := mkCommand [Work 200; Emit 7] (Raises 11).
 Definition answer (after : option N) (v : version) := mkServer after (RResponse true (Some (JDict (TagText (Some v))))).
 
 (* a newer release that arrives 400 ms after the command: the main thread waits 400 ms and prints the notice *)
@@ -241,14 +203,15 @@ Proof. vm_compute. reflexivity. Qed.
 Example C20_ex_late :
   predict (real_config false (Some v120) (answer (Some 3000) v13) ok_cmd) = Some (mkObs 0 [7; 8] false 1000 []).
 Proof. vm_compute. reflexivity. Qed.
-(* garbage: a JSON list / tag_name "nightly" / tag_name missing -- the thread dies with a traceback on stderr only *)
+(* garbage: a JSON list / tag_name "nightly" / tag_name missing / not JSON / HTTP error / any exception from requests.get
+   -- everything ends in the handler, nothing on stderr *)
 Example C20_ex_garbage :
-  predict (real_config false (Some v120) (mkServer (Some 10) (RResponse true (Some JNonDict))) ok_cmd) = Some (mkObs 0 [7; 8] false 0 [ECheckerTraceback]) /\
-  predict (real_config false (Some v120) (mkServer (Some 10) (RResponse true (Some (JDict (TagText None))))) ok_cmd) = Some (mkObs 0 [7; 8] false 0 [ECheckerTraceback]) /\
-  predict (real_config false (Some v120) (mkServer (Some 10) (RResponse true (Some (JDict TagMissing)))) ok_cmd) = Some (mkObs 0 [7; 8] false 0 [ECheckerTraceback]) /\
+  predict (real_config false (Some v120) (mkServer (Some 10) (RResponse true (Some JNonDict))) ok_cmd) = Some (mkObs 0 [7; 8] false 0 []) /\
+  predict (real_config false (Some v120) (mkServer (Some 10) (RResponse true (Some (JDict (TagText None))))) ok_cmd) = Some (mkObs 0 [7; 8] false 0 []) /\
+  predict (real_config false (Some v120) (mkServer (Some 10) (RResponse true (Some (JDict TagMissing)))) ok_cmd) = Some (mkObs 0 [7; 8] false 0 []) /\
   predict (real_config false (Some v120) (mkServer (Some 10) (RResponse true None)) ok_cmd) = Some (mkObs 0 [7; 8] false 0 []) /\
   predict (real_config false (Some v120) (mkServer (Some 10) (RResponse false None)) ok_cmd) = Some (mkObs 0 [7; 8] false 0 []) /\
-  predict (real_config false (Some v120) (mkServer (Some 10) ROtherExc) ok_cmd) = Some (mkObs 0 [7; 8] false 0 [ECheckerTraceback]) /\
+  predict (real_config false (Some v120) (mkServer (Some 10) ROtherExc) ok_cmd) = Some (mkObs 0 [7; 8] false 0 []) /\
   predict (real_config false (Some v120) (mkServer (Some 10) RRequestExc) ok_cmd) = Some (mkObs 0 [7; 8] false 0 []).
 Proof. vm_compute. repeat split; reflexivity. Qed.
 (* equal (1.2 against 1.2.0), older, pre-release and dev-release answers: no notice *)
@@ -271,18 +234,12 @@ Example C20_ex_slow_checker :
   let s := run k (init k) [AMain; AMain; AMain; AMain; AMain; ATick 5000; AMain; AChk; AChk; AMain; AMain; AMain] in
   s_main s = MExit 0 /\ s_out s = [OChunk 7; OChunk 8] /\ s_delay s = 1000.
 Proof. vm_compute. repeat split; reflexivity. Qed.
-(* the finding on the normal-return path: the join times out, THEN the answer "nightly" is processed and the checker is
-   still writing its traceback when the main thread exits *)
-Example C20_ex_abort_after_join_timeout :
-  let k := real_config false (Some v120) (mkServer (Some 0) (RResponse true (Some (JDict (TagText None))))) ok_cmd in
-  let s := run k (init k) [AMain; AMain; AMain; AMain; AMain; ATick 1000; AMain; AChk; AChk; AChk; AChk; AChk; AMain; AMain] in
-  s_main s = MExit 134 /\ s_out s = [OChunk 7; OChunk 8] /\ s_delay s = 1000 /\ in_finding_region k = true.
-Proof. vm_compute. repeat split; reflexivity. Qed.
-Example C20_ex_region :
-  in_finding_region refuting_config = true /\ known_abort_region refuting_config = true /\
-  in_finding_region (real_config false (Some v120) (mkServer (Some 0) RRequestExc) fail_cmd) = false /\
-  in_finding_region (real_config false (Some v120) (answer (Some 0) v13) fail_cmd) = false /\
-  in_finding_region (real_config false (Some v120) (mkServer None ROtherExc) fail_cmd) = false.
+(* the schedule that made the pinned code exit with 134 (exit-11 command, answer {"tag_name": "nightly"}, five checker
+   steps, then the main thread leaves): the checker is in its handler and the status is the command's *)
+Example C20_ex_formerly_refuting_run :
+  let k := real_config true (Some v120) (mkServer (Some 0) (RResponse true (Some (JDict (TagText None))))) fail_cmd in
+  let s := run k (init k) [AChk; AChk; AChk; AChk; AChk; AMain; AMain; AMain] in
+  s_main s = MExit 11 /\ s_chk s = CHandler /\ s_err s = [] /\ s_latest s = PNone.
 Proof. vm_compute. repeat split; reflexivity. Qed.
 (* hypotheses are needed: a NON-daemon checker with a silent server leaves a state that is stuck but not over *)
 Example C20_needs_daemon :
